@@ -85,6 +85,14 @@ def run(ch, ctx, fault=None):
         from term_image import padding as padding_mod
         from term_image.render import FinalizedIteratorError, RenderIterator
         SimR = simrenderable.make(R, hooks)
+
+        class SeamPadding(padding_mod.ExactPadding):
+            __slots__ = ()
+
+            def _get_exact_dimensions_(self, render_size):
+                k.seam("padding")
+                return super()._get_exact_dimensions_(render_size)
+
         rends = []
         for j in range(ch.int("n_rend", 1, 3)):
             kind = ch.pick("rkind", ("still", "anim", "anim", "indef"))
@@ -210,14 +218,22 @@ def run(ch, ctx, fault=None):
                     fin = ch.bool("finalize", 0.5)
                     rd = r._get_render_data_(iteration=True)
                     tok = hooks.next_token
-                    desc = "_from_render_data_(%r, finalize=%s)" % (r, fin)
-                    it = RenderIterator._from_render_data_(r, rd, None, padding_mod.ExactPadding(),
-                                                           ch.pick("loops", (1, 2)), finalize=fin)
-                    live.append(Live(it, tok, fin, desc))
+                    # the caller's padding object is caller code too: its size computation runs
+                    # during the iterator's set-up and may fail there
+                    pad = SeamPadding() if ch.bool("seam_padding", 0.5) \
+                        else padding_mod.ExactPadding()
+                    desc = "_from_render_data_(%r, %s, finalize=%s)" % (
+                        r, type(pad).__name__, fin)
                     if not fin:
                         owned[tok] = rd
                         expect0.add(tok)
-                    del it, rd
+                    try:
+                        it = RenderIterator._from_render_data_(
+                            r, rd, None, pad, ch.pick("loops", (1, 2)), finalize=fin)
+                    finally:
+                        del rd
+                    live.append(Live(it, tok, fin, desc))
+                    del it
                 elif op == "init_render_keep":
                     desc = "%r._init_render_(finalize=False) [caller keeps the data]" % r
                     (rd, _), _ = r._init_render_(lambda *a: a, finalize=False)
@@ -537,6 +553,7 @@ def run(ch, ctx, fault=None):
         ctx.extra["renders"] = k.counts.get("render", 0)
         ctx.extra["writes"] = k.counts.get("out.write", 0)
         ctx.extra["finalizes"] = k.counts.get("finalize", 0)
+        ctx.extra["paddings"] = k.counts.get("padding", 0)
         for tok in sorted(owned):
             try:
                 owned[tok].finalize()
@@ -564,6 +581,8 @@ def faults(ctx, ch):
         out.append({"kind": "render", "k": kk, "when": "before", "exc": "KeyboardInterrupt"})
     for kk in range(1, ctx.extra.get("writes", 0) + 1):
         out.append({"kind": "out.write", "k": kk, "when": "before", "exc": "KeyboardInterrupt"})
+    for kk in range(1, ctx.extra.get("paddings", 0) + 1):
+        out.append({"kind": "padding", "k": kk, "when": "before", "exc": "RuntimeError"})
     for kk in range(1, ctx.extra.get("finalizes", 0) + 1):
         out.append({"kind": "finalize", "k": kk, "when": "before", "exc": "RuntimeError"})
     return out
